@@ -771,12 +771,26 @@ def rule_P8(repo: Repo) -> RuleResult:
     res = RuleResult("P8", "cumulative outputs of null-key rows are overwritten with a constant marker")
     f = repo.func(NB, "_apply_cumulative")
     flag = None
+    kcall = None
     for n in walk_no_nested(f.node):
-        if isinstance(n, ast.Assign) and isinstance(n.targets[0], ast.Tuple) and len(n.targets[0].elts) == 2 \
-                and isinstance(n.value, ast.Call) and "reduce_func" in [k.arg for k in n.value.keywords]:
-            flag = n.targets[0].elts[1].id
+        if isinstance(n, ast.Assign) and isinstance(n.value, ast.Call) and "reduce_func" in [k.arg for k in n.value.keywords]:
+            kcall = n
+            if isinstance(n.targets[0], ast.Tuple) and len(n.targets[0].elts) == 2 and isinstance(n.targets[0].elts[1], ast.Name):
+                flag = n.targets[0].elts[1].id
+    if kcall is None:
+        raise AnalysisError("P8: the call of the cumulative kernel in _apply_cumulative not found")
     if flag is None:
-        raise AnalysisError("P8: (result, has_null_keys) = kernel(...) not found")
+        # no null-key report: the fill must then be an unconditional store AFTER the kernel call
+        after = [s_ for s_ in walk_no_nested(f.node) if isinstance(s_, ast.Assign) and s_.lineno > kcall.lineno
+                 and isinstance(s_.targets[0], ast.Subscript) and "group_key" in norm(s_.targets[0].slice) and "< 0" in norm(s_.targets[0].slice)]
+        if after:
+            res.ok(f, after[0], norm(after[0]), "null-key rows overwritten after the kernel ran")
+        else:
+            res.bad(f, kcall, f"{norm(kcall)[:70]}: no fill of the null-key rows after the kernel",
+                    "the rows with a null key are not overwritten with a constant marker AFTER the kernel has run (a fill before the "
+                    "kernel does not do: the kernel uses the output array as its state and reads an unseen group's running value from "
+                    "the last row, so a marker stored there leaks into real groups)")
+        return res
     blk = [n for n in walk_no_nested(f.node) if isinstance(n, ast.If) and isinstance(n.test, ast.Name) and n.test.id == flag]
     if not blk:
         res.bad(f, f.node, f"if {flag}:", "the null-key post-fill is gone: null-key rows keep whatever the output array held")
